@@ -81,6 +81,45 @@ def r1_signed_width(cx):
     # Fixed arm and From<PropertySize> both go through needed_bytes on the stored key: nothing else to check
 
 
+def r1b_fold_does_not_wrap(cx):
+    """the sign-folding helper(s) feeding PropertySize<signed> shift the magnitude left: every such shift is a
+    plain `<<` guarded by a comparison of the shifted value with a constant (a wrapping/checked shift, or an
+    unguarded one, silently loses the top bit for |v| >= 2^62)"""
+    F = cx.F
+    f = [r for r in F.find(impl_self="schema::property::Property", item="process", closure=False)][0]
+    b = F.body(f)
+    helpers = set()
+    for i, t in b.calls(r"PropertySize::" + SIGNED + r"::process$"):
+        for j, tt in b.origin_calls(t["args"][1]):
+            c = tt.get("callee") or {}
+            if c.get("rfn") is not None and _sign_aware_body(F, F.fns[c["rfn"]]):
+                helpers.add(c["rfn"])
+    if not helpers:
+        cx.ob("R1", "R1/fold-no-wrap/none", True, f, "no sign-folding helper to check", trivial=True)
+        return
+    for h in sorted(helpers):
+        g = F.fns[h]
+        gb = F.body(g)
+        bad = [callee_str(t).split("::")[-1] + "@" + str(t.get("ln")) for i, t in gb.calls(r"num::<impl i(8|16|32|64|128|size)>::(checked_shl|wrapping_shl|overflowing_shl|unchecked_shl|rotate_left|wrapping_mul|checked_mul|wrapping_add)$")]
+        shifts = [(i, s) for i, blk in enumerate(gb.blocks) if not blk.get("cleanup") for s in blk["s"] if s["k"] == "assign" and s["rv"]["k"] == "bin" and s["rv"]["op"] in ("Shl", "ShlUnchecked", "Mul", "MulWithOverflow") and s["rv"].get("a_ty", "").startswith("i")]
+        unguarded = []
+        for i, s in shifts:
+            cds = gb.control_dep_switches(i)
+            guarded = False
+            for sw in cds:
+                l = op_local(gb.term(sw)["op"])
+                for d in gb.defs().get(l, []) if l is not None else []:
+                    if d[0] == "stmt" and d[3]["rv"]["k"] == "bin" and d[3]["rv"]["op"] in ("Gt", "Ge", "Lt", "Le"):
+                        oa, ob_ = gb.origins(d[3]["rv"]["a"]), gb.origins(d[3]["rv"]["b"])
+                        pure = lambda o: bool(o) and all(x[0] == "const" for x in o)
+                        if (pure(oa) or pure(ob_)) and {x for x in gb.origins(s["rv"]["a"]) if x[0] in ("param", "call")} & (oa | ob_):
+                            guarded = True
+            if not guarded:
+                unguarded.append(s.get("ln"))
+        cx.ob("R1", "R1/fold-no-wrap/%s" % g["name"].split("::")[-1], not bad and not unguarded and bool(shifts), g,
+              "sign folding: the left shift of the magnitude is a plain `<<` under a comparison with a constant bound (wrapping/checked ops: %s; unguarded shifts at lines %s)" % (bad, unguarded))
+
+
 def r2_tail_size(cx):
     F = cx.F
     limit = ref.REF["sizes"]["SizedOffset.size_mask"]
@@ -513,6 +552,7 @@ def r9_dedup_index(cx):
 
 RULES = [
     ("R1", r1_signed_width, 3),
+    ("R1", r1b_fold_does_not_wrap, 1),
     ("R2", r2_tail_size, 4),
     ("R3", r3_guards, 5),
     ("R4", r4_entry_encoding, 11),
